@@ -290,7 +290,12 @@ static void alt_key(size_t kidx, unsigned char *k, const unsigned char *KEY) {
 // c05: failure of both, or success of both with the original plaintext
 static std::string oracle_c05(const Bytes &M, const Bytes &F, const Bytes &P, const Base &b, int kind, size_t p, size_t inner, const std::string &where) {
   if (M == F) return "=";
-  fo::OpResult v = fo::wc_verify(M, KEY, b.T), d = fo::wc_decrypt(M, KEY, b.T);
+  fo::OpResult v, d;
+  if ((p + inner) % 4 == 1) { // history: the genuine file has just been accepted, then the altered copy is decrypted straight away
+    if ((p + inner) % 8 == 1) (void)fo::wc_verify(F, key_of(b.kk), b.T); else (void)fo::wc_decrypt(F, key_of(b.kk), b.T);
+    d = fo::wc_decrypt(M, KEY, b.T);
+    v = fo::wc_verify(M, KEY, b.T);
+  } else { v = fo::wc_verify(M, KEY, b.T); d = fo::wc_decrypt(M, KEY, b.T); }
   std::string what = std::string(MK[kind]) + " at " + std::to_string(p) + (inner_count(kind) > 1 ? "/" + std::to_string(inner) : "") + " (" + where + ")";
   if (d.ret && d.out != P) {
     std::string key = "accepted-different-plaintext:" + where;
@@ -335,9 +340,14 @@ static std::string run_key(const Case &c) {
   unsigned char k[16];
   alt_key((size_t)c.num("kidx"), k, key_of(b.kk));
   if (memcmp(k, key_of(b.kk), 16) == 0) return "";
-  // the ordinary sequence of use: the same file (same inode) is first verified with the right key, then someone tries another key
-  if (c.num("kidx") % 2 == 0) (void)fo::wc_verify(F, key_of(b.kk), b.T);
-  fo::OpResult v = fo::wc_verify(F, k, b.T), d = fo::wc_decrypt(F, k, b.T);
+  // the ordinary sequences of use: the same file (same inode) is first verified or decrypted with the right key, then someone tries
+  // another key - verify first or decrypt first (a record of "the last file that passed" may be consumed by whichever comes next)
+  int order = (int)(c.num("kidx") % 5);
+  if (order == 1 || order == 2) (void)fo::wc_verify(F, key_of(b.kk), b.T);
+  if (order == 3 || order == 4) (void)fo::wc_decrypt(F, key_of(b.kk), b.T);
+  fo::OpResult v, d;
+  if (order == 2 || order == 4) { d = fo::wc_decrypt(F, k, b.T); v = fo::wc_verify(F, k, b.T); }
+  else { v = fo::wc_verify(F, k, b.T); d = fo::wc_decrypt(F, k, b.T); }
   if (MODE == "c12") {
     if (v.ret != d.ret) return "verify-decrypt-disagree|wrong key: verify " + std::string(v.ret ? "ok" : "fail") + ", decrypt " + (d.ret ? "ok" : "fail");
     if (!v.out.empty()) return "verify-wrote-output|verify wrote bytes";
